@@ -8,7 +8,7 @@ Bind:  simulated behaviours replayed on a scratch directory with the archive pro
        calls recorded and validated by MineralTrace.tla.
 """
 from harness import layerb
-from harness.common import SEED, Check, MachineryError, run_tlc
+from harness.common import SEED, Check, MachineryError, run_tlaps, run_tlc
 
 
 def main(tier):
@@ -20,6 +20,14 @@ def main(tier):
         dead = [a for a, (d, t) in (mc.coverage or {}).items() if t == 0 and a in ("SavePostfix", "SaveWholeFile", "SaveCorrupt", "Load", "FromFile", "LoadBadName")]
         if dead:
             raise MachineryError(f"actions never taken: {dead}")
+    # unbounded part: the history / persistence laws proved by TLAPS on the abstraction (HistoryLaws.tla); the TLC
+    # run above checked PROPERTY RefinesLaws, i.e. that every step of the Layer-B machine is a step of that abstraction
+    proof = run_tlaps("HistoryLawsProofs")
+    chk.cov["tlaps"] = dict(module="HistoryLawsProofs", obligations_proved=proof["proved"], wall_s=proof["wall_s"],
+                            theorems=["TypeInvariant", "AppendOnly", "FailureAtomic", "RefusalAtomic", "RoundTrip", "SaveIsolation", "DiskNonEmpty"],
+                            link="PROPERTY RefinesLaws checked by TLC in PyDRexC17 (all reachable states of the bounded configuration)")
+    if proof["proved"] < 200:
+        raise MachineryError(f"only {proof['proved']} proof obligations")
     layerb.quiet = True
     from harness.common import quiet_pydrex
 
